@@ -84,6 +84,7 @@ structure Shape (i : Gen.Instr) (e : Gen.Execution) : Prop where
   wregs : i.writeRegisters = if e.RegisterChange then [e.Register] else []
   pcBranch : e.PcChange = true → isBranchType i.instructionType = true
   retPlain : e.Return = true → e.RegisterChange = false ∧ e.MemoryChange = false ∧ e.PcChange = false
+  memNoPc : e.MemoryChange = true → e.PcChange = false
 
 
 theorem ite_ok {ε α} (c : Prop) [Decidable c] (a b : α) :
